@@ -1116,17 +1116,21 @@ func Retract(vm *VM, t Term, k Cont, env *Env) *Promise {
 		return Error(permissionError(operationModify, permissionTypeStaticProcedure, pi.Term(), env))
 	}
 
-	deleted := 0
 	ks := make([]func(context.Context) *Promise, len(u.clauses))
 	for i, c := range u.clauses {
-		i := i
+		c := c
 		raw := rulify(c.raw, env)
 		ks[i] = func(_ context.Context) *Promise {
 			return Unify(vm, t, raw, func(env *Env) *Promise {
-				j := i - deleted
-				u.clauses, u.clauses[len(u.clauses)-1] = append(u.clauses[:j], u.clauses[j+1:]...), clause{}
-				deleted++
-				return k(env)
+				// The database may have changed since the call: find the clause itself, not its former position.
+				for j := range u.clauses {
+					if id(u.clauses[j].raw) != id(c.raw) {
+						continue
+					}
+					u.clauses, u.clauses[len(u.clauses)-1] = append(u.clauses[:j], u.clauses[j+1:]...), clause{}
+					return k(env)
+				}
+				return Bool(false) // already removed by someone else
 			}, env)
 		}
 	}
